@@ -3244,7 +3244,15 @@ class View:
         s, c = self.get('sent'), self.get('cr')
         out = []
         for k, v in s['sent']:
-            if v == c['digest']:
+            if k.lower() == 'host':
+                # the adapter puts a Host header on the request itself (httpx keeps an explicit one verbatim instead of deriving a
+                # normalised one from the URL): source 0 = the configured host, the value that is signed.  Anything else is not
+                # modelled — the item turns opaque, nothing is assumed.  The name is emitted in lower case (header names are
+                # case-insensitive; the model looks the entry up as `host`).
+                if v != [('t', ('ctor', 'host'))]:
+                    raise Unrec('the Host header is set to something else than the configured host')
+                out.append(('host', 0))
+            elif v == c['digest']:
                 out.append((k, 1))
             elif ts_now(v, AMZ_TS) is not None and self.is_ts(v, AMZ_TS):
                 out.append((k, 2))
@@ -3645,7 +3653,7 @@ def section(ctx):
         assert toks_of(u.r.method) == ctoks('PUT') and c['uri'][0][1][1] == bucket_name
         assert u.r.kwargs == {'content': ('param', 'data')}, u.r.kwargs
         assert c['digest'] == [('t', ('hex', ('hash', 'sha256', S('b', [('t', ('param', 'data'))]))))], c['digest']
-        extra = [(k, v) for k, v in u.get('sent')['sent'] if (k, v) not in [(a, b) for a, b in u.get('sent')['sent'] if any(a == n for n, _ in u.get('sent_codes'))]]
+        extra = [(k, v) for k, v in u.get('sent')['sent'] if not any(k == n or (n == 'host' and k.lower() == n) for n, _ in u.get('sent_codes'))]
         assert extra == [('content-length', [('t', ('tostr', ('len', ('param', 'data'))))])], extra
         s = upload_request('upload_stream')
         c = s.get('cr')
@@ -3654,7 +3662,7 @@ def section(ctx):
         body = kw.pop('content', None)
         assert not kw and body is not None and body[0] == 'call' and body[1] == 'replicat.utils.aiter_chunks' and body[2] == (('param', 'stream'),) \
             and body[3] == (('chunk_size', ('param', 'chunk_size')),), (kw, body)
-        extra = [(k, v) for k, v in s.get('sent')['sent'] if not any(k == n for n, _ in s.get('sent_codes'))]
+        extra = [(k, v) for k, v in s.get('sent')['sent'] if not any(k == n or (n == 'host' and k.lower() == n) for n, _ in s.get('sent_codes'))]
         assert extra == [('content-length', [('t', ('tostr', ('param', 'length')))])], extra
         stream_digest_shape()
         return 'true'
